@@ -18,6 +18,7 @@ import common
 import gen_common as G
 import gen_checks as GC
 import gen_main
+import gen_main2
 from common import coq_string, coq_list
 
 PID = 'C05'
@@ -202,8 +203,9 @@ def run(ctx):
     out.assumptions = ['topologies and embedding histories covered per generated program',
                        'local names equal to a function name or k are not generated (they would capture it)']
     # whole-pipeline model of Model.main() (single-currency programs): canonical names / defined once for ALL programs
-    out.proof = common.proof_status_many([(FAMILY, PROPFILE)] + gen_main.PROOFS)
-    gen_main.extra(ctx, out)
+    out.proof = common.proof_status_many([(FAMILY, PROPFILE)] + gen_main2.PROOFS)
+    gen_main.extra(ctx, out, 50, 800)
+    gen_main2.extra(ctx, out)
     return out
 
 
@@ -212,6 +214,8 @@ def replay(path):
     r = obj.get('replay') or {}
     if r.get('kind') == 'main':
         return gen_main.replay(obj)
+    if r.get('kind') == 'main2':
+        return gen_main2.replay(obj)
     if r.get('kind') != 'program':
         print('replay names a proof/validation obligation, nothing to execute:', json.dumps(obj)[:600])
         return 1
